@@ -22,6 +22,7 @@ type params struct {
 	Len       int
 	Pipelined bool
 	Preconn   bool // a valid CONNECT is sent (and settled) before the sequence starts
+	Real      bool // the broker reads / writes through the real transport.BaseConn over a byte-stream view of the pipe
 }
 
 func init() {
@@ -135,6 +136,7 @@ func sequence(x *explore.X, pr params) {
 		// (publish tokens stay at the default 10: unfinished inbound QoS 2 handshakes legitimately hold them)
 		m.ClientParallelSubscribes = 2
 	})
+	w.Real = pr.Real
 	// a witness subscribed to everything sees whatever the connection under test causes to be delivered
 	wit := w.Dial("witness")
 	wit.Send(withCreds(env.Connect("witness", true, nil), "u", "pw"))
@@ -324,6 +326,8 @@ func run(r *report.Report) {
 		{"after-connect-pipelined", params{Len: 3, Preconn: true, Pipelined: true}, 0},
 		{"cold-pipelined", params{Len: 3, Pipelined: true}, 0},
 		{"after-connect-pipelined-reordered", params{Len: 2, Preconn: true, Pipelined: true}, 1},
+		{"cold-pipelined-over-baseconn", params{Len: 3, Pipelined: true, Real: true}, 0},
+		{"after-connect-pipelined-over-baseconn", params{Len: 3, Preconn: true, Pipelined: true, Real: true}, 0},
 	}
 	if r.Tier == "thorough" {
 		cfgs = []cfgT{
@@ -333,12 +337,15 @@ func run(r *report.Report) {
 			{"cold-pipelined", params{Len: 4, Pipelined: true}, 0},
 			{"after-connect-pipelined-reordered", params{Len: 3, Preconn: true, Pipelined: true}, 1},
 			{"after-connect-pipelined-reordered2", params{Len: 2, Preconn: true, Pipelined: true}, 2},
+			{"cold-pipelined-over-baseconn", params{Len: 4, Pipelined: true, Real: true}, 0},
+			{"after-connect-pipelined-over-baseconn", params{Len: 4, Preconn: true, Pipelined: true, Real: true}, 0},
+			{"after-connect-pipelined-over-baseconn-reordered", params{Len: 2, Preconn: true, Pipelined: true, Real: true}, 1},
 		}
 	}
 	for _, c := range cfgs {
 		js, _ := json.Marshal(c.p)
 		st := explore.Explore(explore.Config{Harness: "C20.seq", Params: string(js), Bound: c.bound, Workers: report.Workers(), Deadline: r.Deadline()})
-		r.AddExploration(c.name, "history", fmt.Sprintf("all sequences of %d packets over %d packet instances (all 14 types, ids 1/7/65535, 1-4 filters, good/bad credentials), pipelined=%v, preceded by a valid CONNECT=%v, delay bound %d", c.p.Len, len(alphabet()), c.p.Pipelined, c.p.Preconn, c.bound), st,
+		r.AddExploration(c.name, "history", fmt.Sprintf("all sequences of %d packets over %d packet instances (all 14 types, ids 1/7/65535, 1-4 filters, good/bad credentials), pipelined=%v, preceded by a valid CONNECT=%v, over transport.BaseConn=%v, delay bound %d", c.p.Len, len(alphabet()), c.p.Pipelined, c.p.Preconn, c.p.Real, c.bound), st,
 			"one execution = one packet sequence on a fresh broker with a witness subscribed to '#'; replies compared with a reference transducer; non-trivial = sequences on an accepted connection that received more than the CONNACK", "answered")
 	}
 }
